@@ -10,13 +10,15 @@ import (
 
 // Unit is one level of nesting: Pre ++ <nested value> ++ Suf is again a value.
 type Unit struct {
-	Name    string
-	Pre     []byte
-	Suf     []byte
-	LvDec   int  // levels it adds where the value is decoded (naked or typed)
-	LvSkip  int  // levels it adds where the value is walked by nextValueBytes (skip / Raw)
-	KeyPos  bool // the nested value sits in map-key position (a container there is unhashable as an interface{} key)
-	NoTyped bool
+	Name     string
+	Pre      []byte
+	Suf      []byte
+	LvDec    int  // levels it adds where the value is decoded (naked or typed)
+	LvSkip   int  // levels it adds where the value is walked by nextValueBytes (skip / Raw)
+	KeyPos   bool // the nested value sits in map-key position (a container there is unhashable as an interface{} key)
+	NoTyped  bool
+	LeafOnly bool // well-formed only as the innermost level (cbor tag 4 / 5: exponent and mantissa are integers): anything
+	// nested inside it where the value is DECODED can only be an error
 	Hostile bool // the head claims a length no input can honour (0xFFFFFFFF80000000 = math.MinInt32 as an int32, the
 	// containerLenNil sentinel): the only acceptable outcome is an error, at every depth
 }
@@ -111,9 +113,25 @@ func NakedUnits(f Fmt, o Opts) []Unit {
 		add("tag", []byte{0xc0 | 9}, nil, tl, 1, false) // tag 9: not one the decoder interprets
 		add("tag/w2", []byte{0xd9, 0x01, 0x00}, nil, tl, 1, false)
 		add("tag-selfdescribe", []byte{0xd9, 0xd9, 0xf7}, nil, 0, 1, false)
+		us = append(us, TagNumUnits()...)
 	}
 	return us
 }
+
+// TagNumUnits: cbor decimal fractions / bigfloats (tag 4 / 5 around [exponent, mantissa]) nested in the mantissa or
+// in the exponent position of one another. Decoded, only the innermost can be accepted (both are integers);
+// the skip walker sees a tag around a two-element array: two levels.
+func TagNumUnits() []Unit {
+	return []Unit{
+		{Name: "tag4-mantissa", Pre: []byte{0xc4, 0x82, 0x00}, LvDec: 0, LvSkip: 2, LeafOnly: true},
+		{Name: "tag5-mantissa", Pre: []byte{0xc5, 0x82, 0x00}, LvDec: 0, LvSkip: 2, LeafOnly: true},
+		{Name: "tag4-exponent", Pre: []byte{0xc4, 0x82}, Suf: []byte{0x00}, LvDec: 0, LvSkip: 2, LeafOnly: true},
+		{Name: "tag5-exponent", Pre: []byte{0xc5, 0x82}, Suf: []byte{0x01}, LvDec: 0, LvSkip: 2, LeafOnly: true},
+	}
+}
+
+// CNode is a recursive struct whose slice field has no generated fast-path decoder.
+type CNode struct{ C []CNode }
 
 func UnitByName(us []Unit, name string) (Unit, bool) {
 	for _, u := range us {
@@ -245,6 +263,9 @@ var Paths = []Path{
 	{Name: "slices", Base: 1, Typed: true},
 	{Name: "mapsi", Base: 1},
 	{Name: "slicei", Base: 1},
+	{Name: "mapslice", Base: 2, Typed: true},         // Node{C []Node} written as [C] with C given as a MAP {Node: Node}: kSlice reads it as key, value, ...
+	{Name: "float64", Typed: true},                   // cbor: tag 4 / 5 items into a float64
+	{Name: "floats", Base: 1, Typed: true},           // ... into []float64
 	{Name: "selfer-reentry", Base: 1, Typed: true},   // a recursive Selfer whose CodecDecodeSelf calls d.MustDecode for its children
 	{Name: "selfer-reentry-e", Base: 1, Typed: true}, // the same through d.Decode
 	{Name: "ext-iface"},                              // cbor: a tag bound to an InterfaceExt around every level
@@ -294,6 +315,12 @@ func (p Path) Dest(o Opts) interface{} {
 		return new(T)
 	case "slices":
 		return reflect.New(NestedSliceType(o.EffMaxDepth() + 2)).Interface()
+	case "mapslice":
+		return new(CNode)
+	case "float64":
+		return new(float64)
+	case "floats":
+		return new([]float64)
 	case "selfer-reentry":
 		return new(SelfTree)
 	case "selfer-reentry-e":
@@ -320,6 +347,12 @@ func (p Path) UnitsFor(f Fmt, o Opts) []Unit {
 			}
 		}
 		return out
+	case "mapslice":
+		// [ {[{}]: <next Node>} ]: the struct as a one-element array, its slice field as a one-entry map whose key is a leaf Node
+		leaf := cat(Arr1(f), emptyMap(f))
+		return []Unit{{Name: "node-map", Pre: cat(Arr1(f), HeadBytes(f, NMap, 1, 0, 0), leaf), LvDec: 2, LvSkip: 2}}
+	case "float64", "floats":
+		return TagNumUnits()
 	case "ext-iface":
 		return []Unit{{Name: "tag-iext", Pre: []byte{0xc0 | XITag}, LvDec: 1, LvSkip: 1}}
 	case "ext-self":
@@ -331,6 +364,10 @@ func (p Path) UnitsFor(f Fmt, o Opts) []Unit {
 // Applies says whether the path exists for the format.
 func (p Path) Applies(f Fmt) bool {
 	switch p.Name {
+	case "mapslice":
+		return f != Json
+	case "float64", "floats":
+		return f == Cbor
 	case "ext-iface":
 		return f == Cbor
 	case "ext-self":
@@ -360,8 +397,10 @@ func (p Path) Build(f Fmt, o Opts, pattern []Unit, count int) (in []byte, eff in
 		pre, wsuf = MapStr(f, "V"), CloseMap(f)
 	case "mapsi":
 		pre, wsuf = MapStr(f, "a"), CloseMap(f)
-	case "slicei":
+	case "slicei", "floats":
 		pre, wsuf = Arr1(f), CloseArr(f)
+	case "mapslice":
+		core = cat(Arr1(f), emptyMap(f)) // a leaf Node: [ {} ] (two levels)
 	}
 	eff = p.Base
 	if p.Name == "T" {
